@@ -197,9 +197,11 @@ V_REQUIRES(l != NULL && V_R_OK(l, sizeof(struct _list)) && l->len == 0)
 V_ASSIGNS()
 V_ENSURES(V_RET == NULL)
 ;
+#ifndef V_MSRCS_UNIT
 V_CONTRACT
 m_bst_itr_t *m_bst_itr_new(const m_bst_t *l)
 V_REQUIRES(l != NULL && V_R_OK(l, sizeof(struct _bst)) && l->len == 0)
 V_ASSIGNS()
 V_ENSURES(V_RET == NULL)
 ;
+#endif
